@@ -25,7 +25,7 @@ NDET = 2
 OUT_CODE = {"Ok": 0, "Err:Conflict": 2, "Err:MissingCollection": 3, "Err:MissingDatasetType": 4, "Err:CollectionTypeErr": 5,
             "Err:DataIdValueErr": 6, "Err:Cycle": 7, "Err:SqlError": 8, "Err:FileNotFoundError": 9, "Err:NotFound": 9,
             "Err:ValueError": 10, "Err:RuntimeError": 10}
-IMPORT_MODES = ["copy", "copy", "auto", "symlink", "direct"]
+IMPORT_MODES = ["copy", "copy", "auto", "symlink", "move", "direct"]   # move: the export directory is scratch
 XFER_MODES = ["copy", "copy", "auto", "hardlink", "symlink", "direct"]
 
 
@@ -545,8 +545,10 @@ def run(ctx: Ctx):
     ctx.assumptions += [
         "SQLite registry + POSIX FileDatastore, YAML export format, one dimension group {instrument, detector}; remote / "
         "PostgreSQL / chained or in-memory datastores, component and disassembled datasets, QuantumBackedButler sources, "
-        "skip_dimensions, without_datastore, dry_run and transfer='move' are outside the model",
-        "every transfer mode that places an artifact at the in-store path (copy, auto, link, hardlink, symlink, relsymlink) is "
+        "skip_dimensions, without_datastore, dry_run and transfer_from(transfer='move') (it empties the source datastore) are "
+        "outside the model",
+        "every transfer mode that places an artifact at the in-store path (copy, auto, link, hardlink, symlink, relsymlink, and "
+        "move for import_) is "
         "one mode of the model ('Copy'); 'direct' is the other",
         "refs handed to export / transfer_from are the source registry's own refs (no forged refs); dataset ids are version-4 "
         "UUIDs (a direct-mode re-ingest of a version-5 id replaces the record instead of failing and is not modelled)",
